@@ -490,6 +490,16 @@ reg(Zoo(
 ))
 
 
+def _evt_user_kleene():
+    import copy
+    z = copy.deepcopy(ZOO['evt'])
+    z.name = 'evt_u'
+    z.user_kleene = True
+    reg(z)
+
+
+_evt_user_kleene()
+
 # ------------------------------------------------------------------------------------------------
 # fe_<frontend>: one flat machine written in several front-end syntaxes; guards are expressions over
 # three named atoms (the evaluation order of the atoms is part of the trace), actions are sequences
